@@ -161,8 +161,19 @@ def bindEnv (vals : List Value) (ns : Nat) : List EnvEntry → Option (List Boun
     | some b, some bs => some (b :: bs)
     | _, _ => none
 
-/-- Bind + Build + Decode: what `Load` is about to put into the table for spec `s`. -/
-def compile (vals : List Value) (s : Spec) : Sym := ⟨s, bindEnv vals s.ns s.env⟩
+/-- A bound env as the table stores it: `Bind` overwrites the entry's reference with the id (and
+name) of the value it found, so how the entry referred to the value (by id or by name) is gone. -/
+def normEnv (bs : List Bound) : List EnvEntry := bs.map fun b => ⟨b.key, .id b.vid⟩
+
+/-- Bind + Build + Decode: what `Load` is about to put into the table for spec `s`. When `Bind`
+succeeds the stored spec carries the *bound* env (`normEnv`): two versions of a spec that differ only
+in the way an entry refers to the same value are the same symbol for `Load`'s `DeepEqual`, and an
+update from one to the other restarts nothing. When `Bind` fails the spec is stored as read. -/
+def compile (vals : List Value) (s : Spec) : Sym :=
+  let b := bindEnv vals s.ns s.env
+  ⟨{ s with env := match b with
+      | some bs => normEnv bs
+      | none => s.env }, b⟩
 
 /-! ### state -/
 
@@ -384,6 +395,22 @@ def targetAt (specs : List Spec) (vals : List Value) (ns : Nat) (i : Nat) : Opti
   | none => none
 
 def St.target (st : St) (i : Nat) : Option Sym := targetAt st.specs st.vals st.ns i
+
+/-! ### sessions: `Close`, and watching again on the same runtime -/
+
+/-- `Runtime.Close`: both streams are closed and forgotten (`watching := false`, whatever they still
+held is dropped) and `symbolTable.Close()` frees every symbol – an unload notification for each
+active one (Go frees them in a topological order of the port references; the specs of this model
+have no ports, so the order is Go's map order – the observation sorts by id). A later `Watch`
+(`step … .watch`) opens fresh streams: the event queues restart empty, and a `Load` brings the
+table back to what the stores demand. Ending a session by cancelling its context instead leaves
+the table alone; the streams the store then closes deliver nothing further, and the next `Watch`
+replaces them. -/
+def closeRt (st : St) : St :=
+  { st with
+    table := [],
+    log := st.log ++ ((enum st.table).filter Sym.active).map (fun sb => Note.unload sb.spec.id),
+    watching := false, specEv := [], valEv := [] }
 
 /-! ### the concurrent model: store mutations landing inside a `Load` -/
 
